@@ -37,7 +37,8 @@ EXPLANATION = (
     "where it has a next method; both run drivers make their flow an iterator (flow = iter(flow)) before the block loop, because "
     "piecewise consumption of a re-iterable starts every piece at its beginning.  "
     "Does not decide the equality of concatenated request() results with run (counter arithmetic over histories), nor "
-    "wall-clock bounds.")
+    "wall-clock bounds."    " Added after the eighth round of seeded changes and the second round of behaviour-preserving changes: The first target of enumerate(x, 1) is read as a fill counter."
+)
 RULES = {
     "C16-i": "ITERATOR: the Run element of FillRequest is run on iter(buffer)/chain/a wrapper, never on the buffer list itself",
     "C16-h": "FORWARD: reset() of FillRequest / FillRequestSeq resets the wrapped element on every path, unconditionally",
